@@ -52,9 +52,9 @@ func destForms(v Variant, rng *rand.Rand, catalogue bool) string {
 			return "unreach:3"
 		}
 		if v.V6 {
-			return pick(rng, "unreach:4", "unreach:1", "unreachFull:4", "unreach:0", fmt.Sprintf("unreach:%d", rng.IntN(8)))
+			return pick(rng, "unreach:4", "unreach:1", "unreachFull:4", "unreach:0", fmt.Sprintf("unreach:%d", rng.IntN(8)), "unreach:4:rw")
 		}
-		return pick(rng, "unreach:3", "unreach:13", "unreachFull:3", "unreach:2", "unreach:10", fmt.Sprintf("unreach:%d", rng.IntN(16)))
+		return pick(rng, "unreach:3", "unreach:13", "unreachFull:3", "unreach:2", "unreach:10", fmt.Sprintf("unreach:%d", rng.IntN(16)), "unreach:3:rw")
 	case "tcp":
 		if !catalogue {
 			return pick(rng, "synack", "rstack")
@@ -250,7 +250,7 @@ func genFlow(rng *rand.Rand, o *wireOpts, v Variant, c *sim.Call, fi int, actor 
 					}
 				}
 			}
-			r := sim.Reply{Form: form, DelayUs: delay, K: rng.IntN(4)}
+			r := sim.Reply{Form: form, DelayUs: delay, K: rng.IntN(24)}
 			if chance(rng, 0.5) {
 				r.Var = rng.Uint32() | 1
 			}
